@@ -874,6 +874,32 @@ func (e *Env) evalCall(n *ast.CallExpr) (SVal, error) {
 				op = "bv_or"
 			}
 			return SVal{App(SInt, op, a.T, b.T), pickType(a, b)}, nil
+		case "box":
+			// the interface value holding x (dynamic type = x's static type)
+			if err := need(1); err != nil {
+				return SVal{}, err
+			}
+			a, err := e.Eval(n.Args[0])
+			if err != nil {
+				return SVal{}, err
+			}
+			if a.Ty == nil {
+				return SVal{}, fmt.Errorf("spec expr: box of untyped value")
+			}
+			return SVal{vc.tc.Box(a.Ty, a.T), types.NewInterfaceType(nil, nil)}, nil
+		case "arrstr":
+			// the bytes of a [N]byte array value as a string
+			if err := need(1); err != nil {
+				return SVal{}, err
+			}
+			a, err := e.Eval(n.Args[0])
+			if err != nil {
+				return SVal{}, err
+			}
+			if a.T.Sort != ArraySort(SInt, SInt) {
+				return SVal{}, fmt.Errorf("spec expr: arrstr needs a byte array value")
+			}
+			return SVal{App(SString, "arr_str", a.T), types.Typ[types.String]}, nil
 		case "zero":
 			if err := need(1); err != nil {
 				return SVal{}, err
@@ -1000,6 +1026,11 @@ func (e *Env) applyPure(pf *PureFunc, n *ast.CallExpr) (SVal, error) {
 			return SVal{}, fmt.Errorf("spec expr: %s argument %d: got %s want %s", pf.Name, i, v.T.Sort, want)
 		}
 		args = append(args, SVal{v.T, pf.PTypes[i]})
+	}
+	if pf.State {
+		key, ks, vs := vc.ghostStateComp(pf)
+		_ = ks
+		return SVal{Select(vc.cur(e.st, key), args[0].T, vs), pf.RType}, nil
 	}
 	if pf.Body == nil {
 		// uninterpreted ghost function
